@@ -6,17 +6,25 @@ python3 - <<'PY'
 import sys
 sys.path.insert(0, "tools")
 import vlib
-ok, changed, msg = vlib.gen_tables()
-print("tables:", ok, msg)
-if not ok:
-    sys.exit(1)
+import glob, os
+for src in sorted(glob.glob("tools/gentables*.cpp")):
+    b = os.path.basename(src)
+    name = "Tables" if b == "gentables.cpp" else "Tables_" + b[len("gentables_"):-4]
+    ok, changed, msg = vlib.gen_tables(name, b)
+    print("tables:", ok, msg)
+    if not ok:
+        sys.exit(1)
 ok, log = vlib.coq_make(["all"], timeout=7200)
 print(log[-3000:])
 if not ok:
     sys.exit(1)
-exe, msg = vlib.build_ocaml()
-print("ocaml:", exe, msg)
-if exe is None:
-    sys.exit(1)
+for f in sorted(glob.glob("ocaml/*.ml")):
+    comp = os.path.basename(f)[:-3]
+    if comp == "util":
+        continue
+    exe, msg = vlib.build_ocaml(comp)
+    print("ocaml:", comp, exe, msg)
+    if exe is None:
+        sys.exit(1)
 PY
 echo "setup done"
